@@ -815,6 +815,25 @@ class Model:
             return pyv(("emptydict",))
         return pyv(("dictlit", tuple(pairs)))
 
+    def merge_maps(self, ex, maps, st):
+        """{**m1, **m2, ...}: later maps win."""
+        ty = next(m.ty for m in maps if isinstance(m.ty, MapT))
+        cur = None
+        for m in maps:
+            if m.ty is PY and isinstance(m.py, tuple) and m.py and m.py[0] == "emptydict":
+                m = self.empty_container(ex, ty, st)
+            if cur is None:
+                cur = m
+                continue
+            n = V(fresh("merged", Ref), ty)
+            k = z3.Const("mgk", ty.key.sort())
+            st.assume(n.term != NONE)
+            st.assume(z3.ForAll([k], map_has(n.term, k, ty.key) == z3.Or(map_has(cur.term, k, ty.key), map_has(m.term, k, ty.key))))
+            st.assume(z3.ForAll([k], map_get(n.term, k, ty.key, ty.val) == z3.If(map_has(m.term, k, ty.key), map_get(m.term, k, ty.key, ty.val),
+                                                                                    map_get(cur.term, k, ty.key, ty.val))))
+            cur = n
+        return cur
+
     def empty_container(self, ex, ty, st):
         """A fresh empty list/dict/set of a declared type (the contract's `locals` table gives the type)."""
         v = V(fresh("empty", Ref), ty)
@@ -1082,6 +1101,20 @@ def _b_len(model, ex, args, kwargs, st, node):
     (v,) = args
     if v.ty is TUPLE:
         return const(len(v.py))
+    if v.ty is PY and isinstance(v.py, tuple) and v.py and v.py[0] == "filterseq":
+        _, lam, seq = v.py
+        el = iter_elements(model, ex, seq, st)
+        if el[0] != "symbolic":
+            raise Unsupported("len(filter(...)) over a concrete iterable")
+        _, n, at = el
+        j = fresh("fj", z3.IntSort())
+        t, facts = _lambda_body(model, ex, lam, st, [at(j)])
+        rng = z3.And(0 <= j, j < n)
+        for fct in facts:
+            st.assume(z3.ForAll([j], z3.Implies(rng, fct)))
+        cnt = fresh("count", z3.IntSort())
+        st.assume(z3.And(cnt >= 0, cnt <= n, (cnt > 0) == z3.Exists([j], z3.And(rng, t))))
+        return V(cnt, INT)
     if v.ty is PY and isinstance(v.py, tuple) and v.py and v.py[0] == "filtered":
         return V(z3.Sum([z3.If(c, 1, 0) for c, _ in v.py[1]]) if v.py[1] else z3.IntVal(0), INT)
     if v.ty is STR:
@@ -1347,9 +1380,18 @@ def _b_dict(model, ex, args, kwargs, st, node):
     raise Unsupported("dict(...)")
 
 
+def _b_filter(model, ex, args, kwargs, st, node):
+    lam, seq = args
+    if not (lam.ty is PY and isinstance(lam.py, tuple) and lam.py[0] == "lambda"):
+        raise Unsupported("filter() needs a lambda")
+    return pyv(("filterseq", lam, seq))
+
+
 def _b_list(model, ex, args, kwargs, st, node):
     if not args:
         return pyv(("emptylist",))
+    if args[0].ty is PY and isinstance(args[0].py, tuple) and args[0].py and args[0].py[0] == "filterseq":
+        return args[0]
     if args[0].ty is TUPLE or isinstance(args[0].ty, SeqT):
         return args[0]
     raise Unsupported("list(iterable)")
@@ -1358,7 +1400,7 @@ def _b_list(model, ex, args, kwargs, st, node):
 BUILTINS = {
     "isinstance": _b_isinstance, "len": _b_len, "bool": _b_bool, "str": _b_str, "any": _b_any, "all": _b_all,
     "next": _b_next, "tuple": _b_tuple, "getattr": _b_getattr, "cast": _b_cast, "issubclass": _b_issubclass,
-    "set": _b_set, "frozenset": _b_set, "dict": _b_dict, "list": _b_list,
+    "set": _b_set, "frozenset": _b_set, "dict": _b_dict, "list": _b_list, "filter": _b_filter,
 }
 
 
